@@ -266,6 +266,16 @@ func (x *exch) cutOracle(fail func(what, msg string, got, want interface{})) {
 		complete, got = s.CallErr == "" && !s.NoResp, s.Out
 	}
 	where := "in-body"
+	if x.H3 != nil {
+		where = fmt.Sprintf("h3:in-data-frame:declared-length=%v:fin-later=%v:late-reader=%v", x.H3.Declare, x.H3.FinLaterMs > 0, x.DelayMs > 0)
+		if complete {
+			fail("cut-delivered-as-complete:"+where, fmt.Sprintf("the HTTP/3 response stream ended inside a DATA frame after %d of %d body bytes but was delivered as a complete response", x.CutAt, len(x.A.Body)), digest(got), "an error")
+		}
+		if !bytes.HasPrefix(x.A.Body, got) {
+			fail("cut-not-prefix", "bytes delivered from a cut response are not a prefix of the body", digest(got), digest(x.A.Body))
+		}
+		return
+	}
 	if x.H2 != nil {
 		where = "h2:" + x.H2.After + fmt.Sprintf(":declared-length=%v", x.H2.Declare)
 		if complete {
